@@ -224,6 +224,9 @@ func (g *Gen) primD(pk string, allowZero bool) D {
 		if !allowZero && n == 0 {
 			n = 4
 		}
+		if r.P(1, 10) {
+			n = rng.Pick(r, []int64{math.MaxInt32, math.MaxInt32 - 1, math.MinInt32, math.MinInt32 + 1}) // the ends of the range are values like any other
+		}
 		return D{K: "i", NK: pk, I: n}
 	case "f64", "f32":
 		f := g.smallFloat()
@@ -288,6 +291,9 @@ func (g *Gen) primTests(pk string) []TestSpec {
 			}
 			if t.Name != "min" && t.Name != "max" && r.P(1, 4) {
 				t.Not = true
+			}
+			if t.ParamsRenderable() && r.P(1, 5) {
+				t.Opts.Msg, t.Opts.MsgFromParams = nil, true // a MessageFunc that reads the issue's Params
 			}
 		case "int", "i32", "i64", "f64", "f32":
 			if r.P(1, 5) {
